@@ -1,13 +1,13 @@
-SPECIFICATION FairSpec
+SPECIFICATION Spec
 CONSTANTS
   Agents = {"a1", "a2"}
   Seeders = {"s1"}
   Corrupters = {"x1"}
   NPs = {2}
-  Maxcs <- MaxcServers
+  Maxcs <- MaxcSmall
   Pipes = {1}
   MayLeave = {"a2"}
   Verify = TRUE
-INVARIANT TypeOK
-PROPERTY Converges
+INVARIANT Inv
+PROPERTY Monotone
 CHECK_DEADLOCK FALSE
